@@ -165,6 +165,31 @@ pub fn run_family(name: &str, thorough: bool) -> Vec<Value> {
             decoder_family(&mut p, "message.from_bytes_be", &f.blind, thorough, true);
             p.dec("modulus".into(), "message.from_bytes_be", &modulus_r(), &["noncanonical"]);
         }
+        "update_signature" => {
+            let kp = KP::<Sha>::generate(IKM, None, None).unwrap();
+            let m = msgs(3);
+            let sig = Sig::<Sha>::sign(Some(&m), kp.private_key(), kp.public_key(), Some(HEADER)).unwrap();
+            let cases: Vec<(usize, usize, &str)> = vec![
+                (2, 3, "valid"),
+                (3, 3, "index == n"),
+                (0, usize::MAX, "n == usize::MAX"),
+                (usize::MAX, 3, "update_index == usize::MAX"),
+                (usize::MAX - 1, usize::MAX - 1, "n + 1 == usize::MAX, index out of range"),
+                (usize::MAX, usize::MAX, "both max"),
+            ];
+            for (idx, n, d) in cases {
+                let sigc = sig.clone();
+                let skb = kp.private_key().to_bytes();
+                let outcome = guard(move || {
+                    let sk = BBSplusSecretKey::from_bytes(&skb).unwrap();
+                    match sigc.update_signature(&sk, b"message-2", b"new", idx, n) {
+                        Ok(s) => format!("ok:{}", hex::encode(s.to_bytes())),
+                        Err(e) => format!("err:{e:?}"),
+                    }
+                });
+                p.out.push(json!({"id": d, "call": "update_signature", "inputs": [format!("{:x}", idx), format!("{:x}", n)], "outcome": outcome, "tags": ["counts"]}));
+            }
+        }
         _ => {
             p.out.push(json!({"id": "unknown-family", "call": "", "inputs": [], "outcome": "err:driver: unknown family", "tags": ["driver-error"]}));
         }
